@@ -122,13 +122,22 @@ def generate(rng, tier):
             "op": rng.choice([None, None, "sum", "mean"]),
             "unit": rng.choice(["", "g", "cm/s", "K"]),
             "vector": rng.random() < 0.1,
+            # layers of one call may have different dtypes (an integer quantity such as the level next to a float one)
+            "dtype": rng.choice(["f8", "f8", "f8", "f8", "f4", "i8", "i4"]),
         })
+        l = layers[-1]
+        if l["vector"]:
+            l["dtype"] = "f8"
+        if l["dtype"] == "f4":
+            l["values"] = [float(np.float32(v)) for v in l["values"]]
+        elif l["dtype"] in ("i8", "i4"):
+            l["values"] = [float(int(round(v))) for v in l["values"]]
     # several layers may show the very same Array object with different operations (image + contours of one quantity)
     for k in range(1, len(layers)):
         if rng.random() < 0.3:
             src = rng.randrange(k)
             if not layers[src].get("vector"):
-                layers[k] = dict(layers[k], values=list(layers[src]["values"]), unit=layers[src]["unit"], vector=False, same_as=src)
+                layers[k] = dict(layers[k], values=list(layers[src]["values"]), unit=layers[src]["unit"], vector=False, same_as=src, dtype=layers[src]["dtype"])
     case = {
         "n": n, "res": res, "x": ax, "y": ay, "layers": layers,
         "call_op": rng.choice([None, "sum", "mean"]),
@@ -160,6 +169,7 @@ def describe(case):
 
 
 _LAST = {}
+DT = {"f8": np.float64, "f4": np.float32, "i8": np.int64, "i4": np.int32}
 
 
 def call_frontend(case, sim_factory, reuse=None, call_op="__case__"):
@@ -182,9 +192,9 @@ def call_frontend(case, sim_factory, reuse=None, call_op="__case__"):
     layers = []
     datas = []
     for i, l in enumerate(case["layers"]):
-        v = np.array(l["values"], dtype=float)
+        v = np.array(l["values"], dtype=DT[l.get("dtype", "f8")])
         if prior:
-            v = 2.0 * v + 1.0
+            v = (2 * v + 1).astype(v.dtype)
         if l.get("same_as") is not None and l["same_as"] < len(datas):
             data = datas[l["same_as"]]  # the same object
         elif l.get("vector"):
@@ -210,7 +220,7 @@ def call_frontend(case, sim_factory, reuse=None, call_op="__case__"):
             if id(data) in done:
                 continue
             done.add(id(data))
-            (data.x if l.get("vector") else data).values[...] = np.array(l["values"], dtype=float)
+            (data.x if l.get("vector") else data).values[...] = np.array(l["values"], dtype=DT[l.get("dtype", "f8")])
     with Seam(MODNAME, KATTR, sim_factory, knob_scale=case.get("knob")) as seam:
         with np.errstate(all="ignore"):
             plot = osyris.histogram2d(x, y, *layers, **kw)
@@ -508,6 +518,12 @@ def execute(case, stats):
             lay_vals.append(np.abs(np.array(l["values"], dtype=float)) if l.get("vector") else np.array(l["values"], dtype=float))
             lay_ops.append(l["op"] if l["op"] is not None else (case["call_op"] or "sum"))
             lay_units.append(l["unit"])
+    # a float32 layer may be accumulated in float32; every other layer is judged at float64 accuracy
+    lay_eps = [float(np.finfo(np.float32).eps) if (nl and case["layers"][k].get("dtype") == "f4") else float(np.finfo(float).eps) for k in range(len(lay_vals))]
+    for l in case["layers"]:
+        stats.inc("swarm.layer_dtype=" + l.get("dtype", "f8"))
+    if len({l.get("dtype", "f8") for l in case["layers"]}) > 1:
+        stats.inc("probe.layers_of_different_dtypes_in_one_call")
     sums = np.zeros((len(lay_vals), ny, nx))
     abss = np.zeros((len(lay_vals), ny, nx))
     for i, o in enumerate(opts):
@@ -551,7 +567,7 @@ def execute(case, stats):
             vals = np.ma.getdata(data)
             ok_bins = (~amb_bins) & (lower > 0)
             exp = sums[k].copy()
-            tol = 64 * np.finfo(float).eps * abss[k] + 1e-300
+            tol = 64 * lay_eps[k] * abss[k] + 1e-300
             if lay_ops[k] == "mean":
                 with np.errstate(all="ignore"):
                     exp = np.where(lower > 0, exp / np.maximum(lower, 1), 0.0)
@@ -584,7 +600,7 @@ def execute(case, stats):
                 continue
             ok_bins = (~amb_bins) & (lower > 0)
             exp = sums[k].copy()
-            tol = 64 * np.finfo(float).eps * abss[k] + 1e-300
+            tol = 64 * lay_eps[k] * abss[k] + 1e-300
             if lay_ops[k] == "mean":
                 with np.errstate(all="ignore"):
                     exp = np.where(lower > 0, exp / np.maximum(lower, 1), 0.0)
@@ -638,7 +654,7 @@ def measure(case):
     sw = sum(1 for a, b in zip(dec, dec[1:]) if a != b) if dec else 10**6
     part = {"static-equal": 0, "static-uneven": 1, "dynamic": 2}[case["sched"]["partition"]["kind"]]
     nonfin = sum(1 for v in case["x"]["pts"] + case["y"]["pts"] if not math.isfinite(v))
-    return (case["n"], len(case["layers"]), case["sched"]["T"], part, case["res"], nonfin, int(bool(case.get("knob"))), int(case.get("second_op") is not None) + int(bool(case.get("prior"))), sw, len(dec) if dec else 10**6)
+    return (case["n"], len(case["layers"]), sum(1 for l in case["layers"] if l.get("dtype", "f8") != "f8"), case["sched"]["T"], part, case["res"], nonfin, int(bool(case.get("knob"))), int(case.get("second_op") is not None) + int(bool(case.get("prior"))), sw, len(dec) if dec else 10**6)
 
 
 def canonical(case, viol):
@@ -692,6 +708,9 @@ def reductions(case, viol):
             kept.append(l2)
         c["layers"] = kept
         yield c
+    for k, l in enumerate(case["layers"]):
+        if l.get("dtype", "f8") != "f8" and l.get("same_as") is None and not any(m.get("same_as") == k for m in case["layers"]):
+            yield dict(case, layers=case["layers"][:k] + [dict(l, dtype="f8")] + case["layers"][k + 1:])
     # 3. fewer workers / simpler partition / smaller resolution
     s = case["sched"]
     if s["T"] > 1:
